@@ -74,3 +74,6 @@ addfile("F38","C03","fixed","failed-write-corrupts-content",
 addfile("KF8","C03","open","content-never-written",
     "a write call that fails after part of its record has reached the tape (drive write error, or a write-cache read error during the copy pass) leaves that torn record where it is; the next successful call appends its record directly behind it, so the torn header's announced content covers the head of the next record: the entry then reads those bytes (here the single byte '/') without any error - same design gap as KF4 (nothing makes a torn record harmless before appending), reached inside one session",
     relax="torn-record-append")
+addfile("F40","C17","fixed","member-size-after-member-calls",
+    "Chmod/Chown/Chtimes of an original member of a foreign tar archive: the metadata-only record has tar size 0 and the member's header carries no STFS.UncompressedSize record to inherit, so the index held size 0 afterwards (Stat reports an empty file, the next append drops the content); noticed by a sub-agent while probing, then reproduced by C17 once it compared reported sizes",
+    commit="changing the attributes of an entry that was not written by STFS keeps its size")
